@@ -44,16 +44,22 @@ def run(chk):
     if chk.tier == "quick":
         mistakes = rng.fork("mist").shuffle(mistakes)[:1500]
     ms = []
-    for m in mistakes:
+    for mi, m in enumerate(mistakes):
         s1 = Scenario()
         for mm in tables["models"]:
             s1.versions[mm["name"]] = mm["version"]
-        s1.looms["la"] = [(0, 0)]
+        # every second history on a loom with two CPUs, where each execute after the first names the OTHER CPU: an execute
+        # from a paused / cooling / warming thread must be refused whatever CPU it names
+        two = mi % 2 == 1
+        s1.looms["la"] = [(0, 0), (1, 1)] if two else [(0, 0)]
         s1.threads.append({"loom": "la", "pid": 10, "tid": 101})
         clk = 10
+        nx = 0
         for v in m:
             clk += 3
-            s1.events.append((0, clk, "OH" + v, (i32(0) + i32(101) + i32(0)) if v == "x" else b""))
+            cpu = (nx % 2) if two else 0
+            nx += v == "x"
+            s1.events.append((0, clk, "OH" + v, (i32(cpu) + i32(101) + i32(0)) if v == "x" else b""))
         ms.append(s1)
     chk.count("one_mistake_histories", len(ms))
     corr, _, _ = emucheck.run_cases(chk, build, oracle, tables, ms, types={2, 4, 6}, deciders=(emucheck.d_thread,), label="one-mistake")
